@@ -176,6 +176,71 @@ def check_instance(entry, r, pools, rng, ctx, stats):  # noqa: C901, PLR0912
     return fails
 
 
+def check_calling_conventions(entry, r, rng, stats):
+    """The instance must not depend on HOW the caller wrote the constructor call: positional vs keywords in
+    any written order vs mixed vs a defaulted field skipped. `.args` must follow the field DECLARATION order
+    (methods unpack `.args` by position), attributes are compared by name, then `_hashable_content`,
+    `==`/hash, the rebuild from `.args` and `doit()`."""
+    from tools.corr import C14 as corr
+
+    fails = []
+    fields = entry.fields
+    vals = [getattr(r, f.name) for f in fields]
+    try:
+        ref = entry.cls(*vals)
+    except Exception:  # noqa: BLE001
+        return fails
+    want_args = tuple(v for f, v in zip(fields, vals) if f.metadata.get("sympify"))
+    for conv in corr.calling_conventions(entry, rng, 3):
+        eff = list(vals)
+        for name in conv["skipped"]:
+            j = [f.name for f in fields].index(name)
+            eff[j] = corr.field_default(fields[j])[1]
+        stats["calling_conventions"] = stats.get("calling_conventions", 0) + 1
+        rec = {"constructor": entry.key, "calling_convention": conv["label"], "positional": conv["n_pos"],
+               "keywords_as_written": conv["kw"], "skipped_defaulted": conv["skipped"],
+               "values": {f.name: str(v)[:120] for f, v in zip(fields, eff)}}
+        try:
+            obj = corr.call_convention(entry, vals, conv)
+            pos = entry.cls(*eff) if conv["skipped"] else ref
+        except Exception as e:  # noqa: BLE001
+            if conv["skipped"]:
+                continue  # the default itself is not an acceptable value for this instance's other fields
+            fails.append({"class": "constructor rejects a calling convention that the positional call accepts", **rec,
+                          "error": f"{type(e).__name__}: {e}"[:300]})
+            continue
+        diffs = []
+        want = tuple(a for f, a in zip(fields, [getattr(pos, f.name) for f in fields]) if f.metadata.get("sympify"))
+        if not conv["skipped"] and tuple(pos.args) != want_args:
+            continue  # the class post-processes its arguments; only the convention dimension is judged here
+        if tuple(obj.args) != tuple(pos.args):
+            diffs.append(".args order/content")
+        if tuple(obj.args) != want:
+            diffs.append(".args is not the field-declaration order")
+        for f in fields:
+            if not _field_equal(getattr(obj, f.name), getattr(pos, f.name)):
+                diffs.append(f"attribute {f.name}")
+        try:
+            if obj._hashable_content() != pos._hashable_content():  # noqa: SLF001
+                diffs.append("_hashable_content")
+            if not (obj == pos) or hash(obj) != hash(pos):
+                diffs.append("==/hash")
+        except TypeError:
+            pass  # unorderable/unhashable function attributes (notes/findings_C14.md)
+        if not diffs:
+            try:
+                a, b = obj.doit(), pos.doit()
+                if a != b:
+                    diffs.append("doit()")
+            except Exception:  # noqa: BLE001
+                pass
+        if diffs:
+            fails.append({"class": "instance depends on the calling convention of the constructor (" + ", ".join(diffs[:3]) + ")", **rec,
+                          "keyword_call_args": [str(a)[:100] for a in obj.args], "positional_call_args": [str(a)[:100] for a in pos.args]})
+            break
+    return fails
+
+
 def numeric_arrays_equal(a, b, rng, n_events=4):
     """True / False / None: lambdify both sides (numpy, cse) over their array symbols and scalars and compare on
     random real-valued four-momenta and positive scalars. None = code cannot be generated/run or is not finite."""
